@@ -7,7 +7,7 @@
 From Coq Require Import List String ZArith NArith Bool.
 Import ListNotations.
 From DV Require Import Model.Tree Model.Tables Model.Skeleton Model.FragSkel Model.Values Model.Link Model.Fragment Model.Decorate Model.Restore
-     Proofs.LinkProofs Proofs.LinkPanic Proofs.FragProofs Proofs.RestoreProofs
+     Proofs.LinkProofs Proofs.LinkPanic Proofs.LinkLocal Proofs.FragProofs Proofs.RestoreProofs
      Gen.Universe Gen.DataTbl Gen.FragTbl Gen.RestTbl Gen.DecTbl.
 Local Open Scope string_scope.
 Local Open Scope list_scope.
@@ -72,6 +72,17 @@ Theorem C03_every_comment_kept :
   forall k d ind a, nth_error fs k = Some (FCom d ind a) -> in_decs (l_decs (link fs)) d.
 Proof. exact link_keeps_every_comment. Qed.
 
+(* No comment crosses a token or another decoration point: for every fragment list in which no
+   comment is attached yet, after link every comment sits next to the decoration fragment it is
+   attached to -- between the two there are only comments, line breaks and bad spans.  (The
+   restorer renders a decoration at its point: C04; so a comment stays between the same two
+   tokens.) *)
+Theorem C03_no_comment_crosses_a_token :
+  forall fs,
+  (forall c d ind a, nth_error fs c = Some (FCom d ind a) -> a = None) ->
+  forall c d ind j, nth_error (l_frags (link fs)) c = Some (FCom d ind (Some j)) -> adjacent (l_frags (link fs)) c j.
+Proof. exact link_attaches_locally. Qed.
+
 (* link does not panic when every comment and newline fragment lies in a token-delimited
    segment that holds a decoration fragment (seg_ok is evaluated on every fragment list of the
    correspondence: mismatch_seg). *)
@@ -127,6 +138,7 @@ Print Assumptions C03_decorate_stores_what_link_attaches.
 Print Assumptions C03_every_node_bracketed_by_points.
 Print Assumptions C03_every_comment_attached.
 Print Assumptions C03_every_comment_kept.
+Print Assumptions C03_no_comment_crosses_a_token.
 Print Assumptions C03_link_does_not_panic.
 Print Assumptions C03_sort_keeps_every_fragment.
 Print Assumptions C03_decorate_keeps_every_comment.
